@@ -890,6 +890,7 @@ pub fn run_check(a: &CheckArgs) -> i32 {
         "distinct_plans": st.distinct.len(),
         "distinct_nontrivial": st.nontrivial.len(),
         "distinct_schedules_executed": st.schedules.len(),
+        "distinct_counts_are_lower_bounds_when_above": crate::core::SET_CAP,
         "distinct_schedules_measure": "number of distinct hashes of what actually happened at the seam: for reader scenarios the recorded trace (caller op, refill call index, position, action data/eof/eintr/pending/error, length) of each streamed run; for the pipe scenario the executor's sequence of task picks together with the number of write and refill calls; for the serde scenario (document, cut set, number of source calls)",
         "rule": spec.rule,
         "samples": samples,
